@@ -33,6 +33,12 @@ fn gen(t: Tier, _seed: u64, emit: &mut dyn FnMut(Case)) {
                 emit(Case::Shape { cid, n, s, ph, n2: 3, s2: 1 });
             }
         }
+        for n in long_lengths(bits) {
+            for s in [0usize, 1, nof - 1] {
+                emit(Case::Shape { cid, n, s, ph: 0, n2: 3, s2: 2 });
+            }
+            emit(Case::Shape { cid, n, s: 1, ph: nof / 2 + 1, n2: 1, s2: 0 });
+        }
         let spw = 64 / bits;
         for n in [0usize, 1, 2, 3, 5, 7, spw + 1] {
             for w in [1usize, 2, 3, n, n + 1] {
@@ -156,7 +162,18 @@ fn run_g<A: Sx>(c: &Case, out: &mut Out) {
     });
 
     // ---- windows / chunks -------------------------------------------------------------
-    for w in 1..=n + 2 {
+    let spw = 64 / A::BITS as usize;
+    let widths: Vec<usize> = if n <= 3 * spw + 2 {
+        (1..=n + 2).collect()
+    } else {
+        // long sequences: widths around 1, the word size, half the length and the length
+        let mut w = vec![1, 2, 3, spw - 1, spw, spw + 1, 2 * spw + 1, n / 2, n / 2 + 1, n - 1, n, n + 1, n + 2];
+        w.retain(|x| *x >= 1);
+        w.sort();
+        w.dedup();
+        w
+    };
+    for w in widths {
         out.stage = "windows";
         let want_n = if w <= n { n - w + 1 } else { 0 };
         let got = out.catch(|| v.windows(w).take(cap).map(|x| read(x)).collect::<Vec<Vec<A>>>());
